@@ -98,6 +98,7 @@ def _worker_init(pid):
     chk.setup()
     chk.warm()
     _WORKER['chk'] = chk
+    core.apply_variant()
     core.claim_worker_scratch()
     faulthandler.enable()
     signal.signal(signal.SIGALRM, _alarm)
@@ -429,6 +430,10 @@ def write_replay(pid, item, case, violation, digest, finding, prelude=None):
     doc = {'property': pid, 'run_seed': item['run_seed'],
            'index': item['index'], 'finding': finding,
            'violation': violation, 'digest': digest, 'case': case}
+    if core.variant():
+        # found under a non-default interpreter configuration: the replay
+        # re-executes itself under the same one
+        doc['variant'] = core.variant()
     if prelude:
         # cases executed before `case` in the same process (state the SUT
         # keeps between calls is part of what makes the violation appear)
@@ -441,6 +446,14 @@ def write_replay(pid, item, case, violation, digest, finding, prelude=None):
 def do_replay(chk, path):
     with open(path) as f:
         doc = json.load(f)
+    need = doc.get('variant') or ''
+    if need != core.variant() or \
+            bool(sys.flags.optimize) != ('-O' in VARIANT_FLAGS.get(need, [])):
+        env = dict(os.environ, VERIF_VARIANT=need)
+        sys.stdout.flush()
+        os.execve(PY, [PY] + VARIANT_FLAGS.get(need, []) + [
+            os.path.join(VERIF, 'check'), chk.ID, '--replay', path], env)
+    core.apply_variant()
     chk.setup()
     for c in doc.get('prelude') or []:
         try:
@@ -477,6 +490,56 @@ def fresh_replay_ok(pid, path):
     return ok, p.stdout + p.stderr
 
 
+# ------------------------------------------------------------- variants
+
+VARIANT_FLAGS = {'strict': ['-O']}
+VARIANT_SHARE = 8      # one strict run for every 8 default ones
+
+
+def run_variant_pass(chk, tier, batch_seed, runs, workers, start, args):
+    """Run a slice of further run indexes in a fresh interpreter started
+    with python -O and with warnings raised as errors: two legal ways of
+    running an application that change what the SUT's own source means
+    (assert statements vanish, warnings.warn() raises).  Everything else -
+    generation, oracles, minimisation, replay - is the same code; a replay
+    file written there records the variant and re-executes itself under
+    it."""
+    import tempfile
+    vruns = max(min(runs, chk.BLOCK), runs // VARIANT_SHARE)
+    fd, tmp = tempfile.mkstemp(prefix='variant-', suffix='.json',
+                               dir=core.scratch_dir('variant'))
+    os.close(fd)
+    cmd = [PY] + VARIANT_FLAGS['strict'] + [
+        os.path.join(VERIF, 'check'), chk.ID, '--tier', tier,
+        '--runs', str(vruns), '--start', str(start + runs),
+        '--workers', str(workers), '--variant-json', tmp, '--no-evidence']
+    if args.digest_only:
+        cmd.append('--digest-only')
+    if args.no_minimise:
+        cmd.append('--no-minimise')
+    env = dict(os.environ, VERIF_VARIANT='strict', VERIF_SEED=str(batch_seed))
+    p = subprocess.run(cmd, env=env, capture_output=True, text=True)
+    try:
+        with open(tmp) as f:
+            doc = json.load(f)
+    except (OSError, ValueError):
+        doc = {'errors': ['strict-interpreter pass produced no result '
+                          '(rc=%s):\n%s' % (p.returncode,
+                                            (p.stdout + p.stderr)[-3000:])],
+               'done': 0}
+    finally:
+        try:
+            os.unlink(tmp)
+        except OSError:
+            pass
+    doc['detail_lines'] = [l for l in p.stdout.splitlines()
+                           if l.startswith('violation class=')]
+    if p.returncode == 2 and not doc.get('errors'):
+        doc['errors'] = ['strict-interpreter pass failed:\n' +
+                         (p.stdout + p.stderr)[-3000:]]
+    return doc
+
+
 # ------------------------------------------------------------- main
 
 def main(argv=None):
@@ -500,6 +563,9 @@ def _main(argv=None):
     ap.add_argument('--no-evidence', action='store_true')
     ap.add_argument('--digest-only', action='store_true')
     ap.add_argument('--no-minimise', action='store_true')
+    ap.add_argument('--no-variant', action='store_true',
+                    help='skip the strict-interpreter pass')
+    ap.add_argument('--variant-json', default=None, help=argparse.SUPPRESS)
     args = ap.parse_args(argv)
     pid = args.pid.upper()
     t0 = time.time()
@@ -533,13 +599,29 @@ def _main(argv=None):
     print('check %s tier=%s VERIF_SEED=%d runs=%d workers=%d repo=%s' % (
         pid, tier, batch_seed, runs, workers, core.repo_root()))
     sys.stdout.flush()
+    core.apply_variant()
     out = run_batch(chk, tier, batch_seed, runs, workers, start=args.start)
+    var = None
+    if not core.variant() and not args.no_variant and not out['errors']:
+        var = run_variant_pass(chk, tier, batch_seed, runs, workers,
+                               args.start, args)
     wall = time.time() - t0
     if args.digest_only:
-        print('BATCH-DIGEST %s runs=%d' % (out['digest'], out['done']))
-        for e in out['errors']:
+        dg = out['digest']
+        if var is not None:
+            dg = core.digest_of([dg, var.get('digest')])
+        print('BATCH-DIGEST %s runs=%d' % (
+            dg, out['done'] + (var or {}).get('done', 0)))
+        for e in out['errors'] + (var or {}).get('errors', []):
             print('HARNESS-ERROR ' + e)
-        return 2 if out['errors'] else (1 if out['viols'] else 0)
+        if core.variant() and args.variant_json:
+            with open(args.variant_json, 'w') as f:
+                json.dump({'digest': out['digest'], 'done': out['done'],
+                           'errors': out['errors'],
+                           'rc': 1 if out['viols'] else 0}, f)
+        bad = out['errors'] or (var or {}).get('errors')
+        anyv = out['viols'] or (var or {}).get('rc') == 1
+        return 2 if bad else (1 if anyv else 0)
 
     open_f, fixed_f = load_findings(pid)
     rc = 0
@@ -635,6 +717,17 @@ def _main(argv=None):
         viol_lines.append('VIOLATION property=%s replay=%s' % (pid, path))
         print('violation class=%s finding=%s runs=%d detail=%s' % (
             cls, fid, len(items), core.canon(vs[0]['detail'])[:1500]))
+    if var is not None:
+        seen = set(l.split(':')[1].split()[1] for l in known_lines)
+        for l in var.get('known_lines', []):
+            fid = l.split(':')[1].split()[1]
+            if fid not in seen:
+                seen.add(fid)
+                known_lines.append(l + ' (strict-interpreter pass)')
+        for l in var.get('detail_lines', []):
+            print(l + ' [strict-interpreter pass]')
+        viol_lines.extend(var.get('viol_lines', []))
+        harness_errors.extend(var.get('errors', []))
     for line in known_lines:
         print(line)
     for line in viol_lines:
@@ -679,6 +772,18 @@ def _main(argv=None):
             pid, e.get('commit', '?'), e['what']) for e in fixed_f],
         'exhaustive': False,
     }
+    if var is not None:
+        cov['interpreter_variants'] = {
+            'default': {'runs': out['done']},
+            'strict (python -O, warnings raised as errors)': {
+                'runs': var.get('done', 0),
+                'run_indexes': var.get('indexes'),
+                'batch_digest': var.get('digest'),
+                'outcome_classes': var.get('classes'),
+                'violations': len(var.get('viol_lines', []))}}
+        cov['faults_fired']['env_python_optimize_runs'] = var.get('done', 0)
+        cov['faults_fired']['env_warnings_as_errors_runs'] = \
+            var.get('done', 0)
     if n_distinct >= MAX_DISTINCT:
         cov['distinct_note'] = 'distinct set capped at %d' % MAX_DISTINCT
     if tier_note:
@@ -688,7 +793,15 @@ def _main(argv=None):
           'level': chk.LEVEL, 'coverage': cov,
           'assumptions': list(chk.ASSUMPTIONS), 'wall_s': round(wall, 2),
           'violations': len(viol_lines)}
-    if not args.no_evidence:
+    if core.variant() and args.variant_json:
+        with open(args.variant_json, 'w') as f:
+            json.dump({'digest': out['digest'], 'done': out['done'],
+                       'errors': harness_errors, 'rc': rc,
+                       'known_lines': known_lines, 'viol_lines': viol_lines,
+                       'classes': cov['outcome_classes'],
+                       'indexes': [args.start, args.start + out['done']]},
+                      f, default=core._default)
+    if not args.no_evidence and not core.variant():
         os.makedirs(os.path.join(VERIF, 'evidence'), exist_ok=True)
         with open(os.path.join(VERIF, 'evidence', pid + '.json'), 'w') as f:
             json.dump(ev, f, indent=1, sort_keys=True, default=core._default)
